@@ -78,6 +78,8 @@ func runC05(p *chk.Prog, r *chk.Report) {
 	// the per-peer lists share their advertisement objects: no session writes through them (SET-READONLY, shared with C17)
 	setReadonlyRule(p, r)
 	c05AliasFirst(p, r)
+	// a known peer is carried over or closed, never lost with its session open (PEERS-CONSERVED, shared with C09)
+	peersConservedRule(p, r)
 	// the advertisements applied are those of the pool that owns the addresses now (POOL-CURRENT, shared with C09)
 	c09PoolCurrent(p, r)
 	c05PoolOfAddresses(p, r)
